@@ -274,7 +274,8 @@ Record inv (cfg : config) (st : pstate) : Prop := {
   inv_qver : Forall (accepted_under cfg) (accepted st);
   inv_ledger : Forall (fun t => version_at (c_versions cfg) (t_pver t) <> None /\ NoDup (map qe_sfx (t_ops t))) (ledger st);
   inv_dropped : dropped st = [];
-  inv_stamp : Forall (stamp_ok cfg) (anch st) }.
+  inv_stamp : Forall (stamp_ok cfg) (anch st);
+  inv_pver : Forall (fun e => version_at (c_versions cfg) (s_pver e) <> None) (anch st) }.
 
 Lemma inv_init cfg t0 : inv cfg (init t0).
 Proof.
@@ -294,7 +295,7 @@ Lemma submit_inv cfg st r w : inv cfg st -> inv cfg (submit cfg st r w).
 Proof.
   intros I. unfold submit. destruct (intake cfg st r) as [v|] eqn:Ei; [|exact I].
   pose proof (intake_version _ _ _ _ Ei) as Hv.
-  destruct I as [Ic Is Ib In Iu Iq Il Id Ist].
+  destruct I as [Ic Is Ib In Iu Iq Il Id Ist Ipv].
   constructor; unfold places, ledger_ops, anch in *; cbn [accepted queue ledger store expired dropped now next_num unpub]; try assumption.
   - count_perm.
   - destruct (unpub_type cfg (rq_ty r)).
@@ -358,7 +359,7 @@ Proof. unfold anch. rewrite map_app, concat_app. cbn [map concat]. rewrite app_n
 Lemma cut_inv cfg ex f st st' : cut cfg ex f st = Some st' -> inv cfg st -> inv cfg st'.
 Proof.
   intros Hc I. destruct (cut_spec _ _ _ _ _ Hc) as (cur & batch & rest & ver & Hcur & Hne & Hq & Hver & Hlen & _ & Hvv & ->).
-  destruct I as [Ic Is Ib In Iu Iq Il Id Ist].
+  destruct I as [Ic Is Ib In Iu Iq Il Id Ist Ipv].
   pose proof (split_perm (fun i => memZ i ex) [] batch) as Hsp. cbn zeta in Hsp.
   destruct (split_in_sfx (fun i => memZ i ex) [] batch) as [Hnd _].
   set (sp := split_batch (fun i => memZ i ex) [] batch) in *.
@@ -382,6 +383,9 @@ Proof.
     unfold stamp_ok, stamp_sop. cbn [s_pver s_time s_q t_pver t_time t t_ops] in *.
     destruct (c_by_time cfg); [reflexivity|]. rewrite Forall_forall in Hver. symmetry. apply Hver.
     eapply sub_in; [apply split_sub_in | exact Hz].
+  - unfold anch at 1. cbn [store ledger]. rewrite anch_snoc. apply Forall_app. split; [assumption|].
+    rewrite Forall_forall. intros e He. unfold txn_sops in He. apply in_map_iff in He. destruct He as (z & <- & Hz).
+    unfold stamp_sop. cbn [s_pver t_pver t]. destruct (c_by_time cfg); [congruence | exact Hvv].
 Qed.
 
 Lemma drain_inv cfg ex fuel : forall st, inv cfg st -> inv cfg (drain cfg ex fuel st).
@@ -436,7 +440,7 @@ Proof. rewrite map_map. cbn [stamp_sop s_q]. apply map_id. Qed.
 
 Lemma observe_txn_inv cfg st t r : inv cfg (set_ledger st (t :: r)) -> inv cfg (set_ledger (observe_txn cfg st t) r).
 Proof.
-  intros I. destruct I as [Ic Is Ib In Iu Iq Il Id Ist].
+  intros I. destruct I as [Ic Is Ib In Iu Iq Il Id Ist Ipv].
   unfold places, ledger_ops, anch in *.
   cbn [set_ledger accepted queue ledger store expired dropped now next_num unpub map concat] in *.
   inversion Il as [|? ? [Hv Hnd] Il']; subst.
@@ -451,6 +455,7 @@ Proof.
   - intros x Hx. apply Iu. eapply sub_in; [apply sub_map, delete_all_sub | exact Hx].
   - rewrite app_nil_r. exact Id.
   - rewrite Ha. exact Ist.
+  - rewrite Ha. exact Ipv.
 Qed.
 
 Lemma observe_fold_inv cfg : forall ts st, inv cfg (set_ledger st ts) -> inv cfg (set_ledger (fold_left (observe_txn cfg) ts st) []).
@@ -467,7 +472,7 @@ Qed.
 
 Lemma set_now_inv cfg st t : now st <= t -> inv cfg st -> inv cfg (set_now st t).
 Proof.
-  intros Hle I. destruct I as [Ic Is Ib In Iu Iq Il Id Ist].
+  intros Hle I. destruct I as [Ic Is Ib In Iu Iq Il Id Ist Ipv].
   constructor; unfold places, ledger_ops, anch in *; cbn [set_now accepted queue ledger store expired dropped now next_num unpub]; try assumption.
   rewrite Forall_forall in *. intros e He. destruct (Ib e He) as (Ht & Hn & Hc).
   unfold bounded. cbn [set_now now next_num]. repeat split; lia.
@@ -487,3 +492,690 @@ Proof. unfold run. induction es as [|e r IH]; intros st I; cbn [fold_left]; [exa
 
 Corollary reachable_inv cfg t0 es : inv cfg (run cfg (init t0) es).
 Proof. apply run_inv, inv_init. Qed.
+
+(* ---------------------------------------------------------------------------------------------- *)
+(* 5. the drain loop terminates within its fuel                                                   *)
+(* ---------------------------------------------------------------------------------------------- *)
+
+Lemma cut_shrinks cfg ex f st st' : cut cfg ex f st = Some st' -> (length (queue st') < length (queue st))%nat.
+Proof.
+  intros Hc. destruct (cut_spec _ _ _ _ _ Hc) as (cur & batch & rest & ver & _ & Hne & Hq & _ & _ & _ & _ & ->).
+  cbn [queue]. rewrite Hq, !app_length. pose proof (split_progress (fun i => memZ i ex) batch Hne). lia.
+Qed.
+
+Lemma drain_done cfg ex : forall fuel st, (length (queue st) < fuel)%nat -> cut cfg ex false (drain cfg ex fuel st) = None.
+Proof.
+  induction fuel as [|n IH]; intros st Hlt; [lia|]. cbn [drain].
+  destruct (cut cfg ex false st) as [st'|] eqn:Ec; [|exact Ec].
+  apply IH. pose proof (cut_shrinks _ _ _ _ _ Ec). lia.
+Qed.
+
+(* the fuel [flush] supplies is enough: when the drain loop of the model stops, the real loop has
+   stopped too (an unforced cut returns nothing) *)
+Theorem drain_fuel_suffices cfg ex st : cut cfg ex false (drain cfg ex (S (length (queue st))) st) = None.
+Proof. apply drain_done. lia. Qed.
+
+(* ---------------------------------------------------------------------------------------------- *)
+(* 6. (a) conservation                                                                            *)
+(* ---------------------------------------------------------------------------------------------- *)
+
+(* Every accepted request is in exactly one of: the queue, an anchored but unobserved transaction,
+   the operation store, the handler's discard pile (expired).  Nothing is lost by the observer or
+   discarded by the transaction processor. *)
+Theorem conservation cfg t0 es :
+  let st := run cfg (init t0) es in
+  Permutation (accepted st) (queue st ++ ledger_ops st ++ map s_q (store st) ++ expired st) /\ dropped st = [].
+Proof.
+  cbn zeta. destruct (reachable_inv cfg t0 es) as [Ic _ _ _ _ _ _ Id _ _]. split; [|exact Id].
+  unfold places in Ic. rewrite Id, app_nil_r in Ic. exact Ic.
+Qed.
+
+(* ... exactly once, when request ids are distinct *)
+Corollary exactly_one_place cfg t0 es :
+  let st := run cfg (init t0) es in
+  NoDup (map qe_id (accepted st)) ->
+  NoDup (map qe_id (queue st ++ ledger_ops st ++ map s_q (store st) ++ expired st)).
+Proof.
+  cbn zeta. intros Hn. destruct (conservation cfg t0 es) as [Hp _].
+  eapply Permutation_NoDup; [apply Permutation_map; exact Hp | exact Hn].
+Qed.
+
+(* nothing else is stored *)
+Corollary stored_were_accepted cfg t0 es :
+  let st := run cfg (init t0) es in
+  incl (map s_q (store st)) (accepted st) /\ incl (map u_q (unpub st)) (accepted st).
+Proof.
+  cbn zeta. destruct (reachable_inv cfg t0 es) as [Ic _ _ _ Iu _ _ _ _ _]. split; [|exact Iu].
+  intros q Hq. eapply Permutation_in; [apply Permutation_sym; exact Ic|].
+  unfold places. apply in_or_app. right. apply in_or_app. right. apply in_or_app. left. exact Hq.
+Qed.
+
+(* a refused request leaves no trace - not in the queue, not in the unpublished store, nowhere *)
+Theorem refused_no_trace cfg st r w : intake cfg st r = None -> step cfg st (ESubmit r w) = st.
+Proof. intros H. cbn [step]. unfold submit. rewrite H. reflexivity. Qed.
+
+(* what a refusal is: no version in force, a request the parser / validator rejects, or a non-create
+   operation for a DID that does not resolve or resolves as deactivated *)
+Theorem refusal_reasons cfg st r :
+  intake cfg st r = None <->
+  version_at (c_versions cfg) (now st) = None \/ rq_intake_ok r = false \/
+  (rq_ty r <> Create /\ decorate (pub_of cfg st (rq_sfx r)) (unpub_of cfg st (rq_sfx r)) = Refused).
+Proof.
+  unfold intake. destruct (version_at (c_versions cfg) (now st)) as [v|]; [|split; auto].
+  destruct (rq_intake_ok r); cbn [negb]; [|split; auto].
+  destruct (rq_ty r) eqn:Et.
+  - split; [discriminate|]. intros [H|[H|[H _]]]; congruence.
+  - destruct (decorate _ _); split; try discriminate; auto.
+    + intros [H|[H|[_ H]]]; congruence.
+    + intros _. right. right. split; [discriminate | reflexivity].
+  - destruct (decorate _ _); split; try discriminate; auto.
+    + intros [H|[H|[_ H]]]; congruence.
+    + intros _. right. right. split; [discriminate | reflexivity].
+  - destruct (decorate _ _); split; try discriminate; auto.
+    + intros [H|[H|[_ H]]]; congruence.
+    + intros _. right. right. split; [discriminate | reflexivity].
+Qed.
+
+(* an accepted request: queued at the tail under the genesis time of the version in force, copied
+   to the unpublished store iff its type is configured *)
+Theorem accepted_effect cfg st r w v :
+  intake cfg st r = Some v ->
+  let q := {| qe_req := r; qe_ver := pv_genesis v |} in
+  let st' := step cfg st (ESubmit r w) in
+  version_at (c_versions cfg) (now st) = Some v /\
+  queue st' = queue st ++ [q] /\ accepted st' = accepted st ++ [q] /\
+  unpub st' = (if unpub_type cfg (rq_ty r) then unpub st ++ [{| u_q := q; u_wall := w |}] else unpub st) /\
+  store st' = store st /\ ledger st' = ledger st.
+Proof.
+  intros H. cbn zeta. cbn [step]. unfold submit. rewrite H. cbn [queue accepted unpub store ledger].
+  split; [eapply intake_version; exact H | repeat split].
+Qed.
+
+(* only [ESubmit] extends the accepted list *)
+Lemma cut_accepted cfg ex f st st' : cut cfg ex f st = Some st' -> accepted st' = accepted st.
+Proof. intros Hc. destruct (cut_spec _ _ _ _ _ Hc) as (? & ? & ? & ? & _ & _ & _ & _ & _ & _ & _ & ->). reflexivity. Qed.
+
+Lemma drain_accepted cfg ex fuel : forall st, accepted (drain cfg ex fuel st) = accepted st.
+Proof.
+  induction fuel as [|n IH]; intros st; cbn [drain]; [reflexivity|].
+  destruct (cut cfg ex false st) as [st'|] eqn:Ec; [|reflexivity]. rewrite IH. eapply cut_accepted; exact Ec.
+Qed.
+
+Lemma flush_accepted cfg ex f st : accepted (flush cfg ex f st) = accepted st.
+Proof.
+  unfold flush. destruct (_ || _); [apply drain_accepted|].
+  destruct (cut cfg ex true _) as [st2|] eqn:Ec; [|apply drain_accepted].
+  rewrite (cut_accepted _ _ _ _ _ Ec). apply drain_accepted.
+Qed.
+
+Lemma observe_txn_accepted cfg st t : accepted (observe_txn cfg st t) = accepted st.
+Proof.
+  unfold observe_txn. destruct (version_at _ _); [|reflexivity]. destruct (dedup_split [] (t_ops t)). reflexivity.
+Qed.
+
+Lemma observe_accepted cfg st : accepted (observe cfg st) = accepted st.
+Proof.
+  unfold observe. cbn [clear_ledger accepted]. generalize (ledger st). intros ts. revert st.
+  induction ts as [|t r IH]; intros st; cbn [fold_left]; [reflexivity|]. rewrite IH. apply observe_txn_accepted.
+Qed.
+
+Fixpoint submitted (es : list event) : list request :=
+  match es with
+  | [] => []
+  | ESubmit r _ :: rest => r :: submitted rest
+  | _ :: rest => submitted rest
+  end.
+
+Lemma step_accepted cfg st e :
+  accepted (step cfg st e) = accepted st \/
+  exists r w v, e = ESubmit r w /\ intake cfg st r = Some v /\ accepted (step cfg st e) = accepted st ++ [{| qe_req := r; qe_ver := pv_genesis v |}].
+Proof.
+  destruct e as [r w|f ex| |t]; cbn [step].
+  - unfold submit. destruct (intake cfg st r) as [v|] eqn:Ei; [|left; reflexivity].
+    right. exists r, w, v. repeat split. exact Ei.
+  - left. apply flush_accepted.
+  - left. apply observe_accepted.
+  - left. destruct (now st <=? t); reflexivity.
+Qed.
+
+(* the accepted requests are, in order, a sub-sequence of the submitted ones *)
+Theorem accepted_are_submitted cfg es : forall st,
+  sub (map qe_req (accepted (run cfg st es))) (map qe_req (accepted st) ++ submitted es).
+Proof.
+  unfold run. induction es as [|e r IH]; intros st; cbn [fold_left].
+  - cbn [submitted]. rewrite app_nil_r. apply sub_refl.
+  - eapply sub_trans; [apply IH|]. destruct (step_accepted cfg st e) as [->|(rq & w & v & -> & _ & ->)].
+    + apply sub_app; [apply sub_refl|]. destruct e; cbn [submitted]; try apply sub_refl. apply sub_skip, sub_refl.
+    + cbn [submitted]. rewrite map_app, <- app_assoc. cbn [map qe_req app]. apply sub_refl.
+Qed.
+
+Lemma NoDup_sub {A} (l l' : list A) : sub l l' -> NoDup l' -> NoDup l.
+Proof.
+  induction 1; intros Hn; [constructor | |].
+  - inversion Hn; subst. auto.
+  - inversion Hn as [|? ? Hx Hr]; subst. constructor; [|auto]. intros Hi. apply Hx. eapply sub_in; eassumption.
+Qed.
+
+Corollary accepted_ids_distinct cfg t0 es :
+  NoDup (map rq_id (submitted es)) -> NoDup (map qe_id (accepted (run cfg (init t0) es))).
+Proof.
+  intros Hn. pose proof (accepted_are_submitted cfg es (init t0)) as Hs. cbn [init accepted map app] in Hs.
+  unfold qe_id. rewrite <- map_map. eapply NoDup_sub; [apply sub_map; exact Hs | exact Hn].
+Qed.
+
+(* ---------------------------------------------------------------------------------------------- *)
+(* 7. (b) per-DID order                                                                           *)
+(* ---------------------------------------------------------------------------------------------- *)
+
+Lemma sub_app_l {A} (a b : list A) : sub a (a ++ b).
+Proof. rewrite <- (app_nil_r a) at 1. apply sub_app; [apply sub_refl | apply sub_nil_l]. Qed.
+
+Lemma stamp_time o t n c md : time (stamp o t n c md) = t. Proof. reflexivity. Qed.
+Lemma stamp_num o t n c md : num (stamp o t n c md) = n. Proof. reflexivity. Qed.
+
+(* Per DID, the stored operations carry STRICTLY increasing coordinates in store order: the store
+   order is the anchoring order and no transaction holds two operations of one DID. *)
+Theorem per_suffix_order cfg t0 es s :
+  StronglySorted (fun a b => op_lt a b = true) (pub_of cfg (run cfg (init t0) es) s).
+Proof.
+  destruct (reachable_inv cfg t0 es) as [_ Is _ _ _ _ _ _ _ _]. set (st := run cfg (init t0) es) in *.
+  unfold pub_of. apply SS_map.
+  assert (Hs : StronglySorted before (filter (fun e => s_sfx e =? s) (store st))).
+  { eapply SS_sub; [|exact Is]. eapply sub_trans; [apply sub_filter | apply sub_app_l]. }
+  eapply SS_weaken; [|exact Hs]. intros a b Ha Hb (Ht & Hn & Hsn).
+  apply filter_In in Ha. apply filter_In in Hb. destruct Ha as [_ Ha], Hb as [_ Hb].
+  apply Z.eqb_eq in Ha. apply Z.eqb_eq in Hb.
+  apply op_lt_spec. unfold sop_aop. rewrite !stamp_time, !stamp_num.
+  assert (s_num a < s_num b) by (apply Hsn; congruence). lia.
+Qed.
+
+Lemma strictly_sorted_key_inj l : StronglySorted (fun a b => op_lt a b = true) l -> key_inj l.
+Proof.
+  induction 1 as [|x r Hs IH Hf]; intros a b Ha Hb Hk; [destruct Ha|].
+  rewrite Forall_forall in Hf.
+  assert (Hne : forall y, In y r -> key x <> key y).
+  { intros y Hy Heq. specialize (Hf y Hy). apply op_lt_spec in Hf. unfold key in Heq. injection Heq as H1 H2. lia. }
+  destruct Ha as [<-|Ha], Hb as [<-|Hb].
+  - reflexivity.
+  - exfalso. exact (Hne b Hb Hk).
+  - exfalso. apply (Hne a Ha). symmetry. exact Hk.
+  - apply IH; assumption.
+Qed.
+
+Lemma strictly_sorted_le l : StronglySorted (fun a b => op_lt a b = true) l -> StronglySorted op_le l.
+Proof. apply SS_weaken. intros a b _ _ H. apply op_lt_le. exact H. Qed.
+
+(* so sorting the published operations of a DID (what Resolve does first) changes nothing: the
+   store order is the anchoring order *)
+Corollary stored_in_anchoring_order cfg t0 es s :
+  let pub := pub_of cfg (run cfg (init t0) es) s in sort_ops pub = pub /\ key_inj pub.
+Proof.
+  cbn zeta. pose proof (per_suffix_order cfg t0 es s) as H. split.
+  - apply sort_ops_sorted_id; [apply strictly_sorted_key_inj | apply strictly_sorted_le]; exact H.
+  - apply strictly_sorted_key_inj. exact H.
+Qed.
+
+(* at most one operation per DID per transaction *)
+Corollary one_per_suffix_per_txn cfg t0 es a b :
+  let st := run cfg (init t0) es in
+  In a (store st) -> In b (store st) -> s_sfx a = s_sfx b -> s_num a = s_num b -> a = b.
+Proof.
+  cbn zeta. intros Ha Hb Hs Hn. destruct (reachable_inv cfg t0 es) as [_ Is _ _ _ _ _ _ _ _].
+  assert (Hst : StronglySorted before (store (run cfg (init t0) es))) by (eapply SS_sub; [apply sub_app_l | exact Is]).
+  clear Is. induction Hst as [|x r Hr IH Hf]; [destruct Ha|]. rewrite Forall_forall in Hf.
+  destruct Ha as [<-|Ha], Hb as [<-|Hb].
+  - reflexivity.
+  - destruct (Hf b Hb) as (_ & _ & H). specialize (H Hs). lia.
+  - destruct (Hf a Ha) as (_ & _ & H). specialize (H (eq_sym Hs)). lia.
+  - apply IH; assumption.
+Qed.
+
+(* every stored operation is published: its canonical reference is its transaction number + 1 *)
+Lemma stored_published cfg t0 es s :
+  Forall (fun o => published o = true) (pub_of cfg (run cfg (init t0) es) s).
+Proof.
+  destruct (reachable_inv cfg t0 es) as [_ _ Ib _ _ _ _ _ _ _]. rewrite Forall_forall in *. intros o Ho.
+  unfold pub_of in Ho. apply in_map_iff in Ho. destruct Ho as (e & <- & He). apply filter_In in He. destruct He as [He _].
+  assert (Hin : In e (anch (run cfg (init t0) es))) by (apply in_or_app; left; exact He).
+  destruct (Ib e Hin) as (_ & Hn & Hc). unfold published, sop_aop, stamp. cbn [cref].
+  apply negb_true_iff, Z.eqb_neq. lia.
+Qed.
+
+(* FIFO PER DID DOES NOT HOLD.  The operation handler hands the second and further operations of a
+   DID back and the writer re-queues them at the TAIL, behind later submissions of the same DID:
+   accepted in the order 2, 3, 4 - anchored in the order 2, 4, 3 (Model.reorder_events). *)
+Theorem fifo_refuted :
+  exists cfg t0 es a b,
+    let st := run cfg (init t0) es in
+    In a (store st) /\ In b (store st) /\ s_sfx a = s_sfx b /\
+    (exists l1 l2 l3, accepted st = l1 ++ s_q a :: l2 ++ s_q b :: l3) /\   (* a accepted before b *)
+    s_num b < s_num a.                                                       (* b anchored before a *)
+Proof.
+  pose (qa := {| qe_req := ex_recover; qe_ver := 0 |}). pose (qb := {| qe_req := ex_update2; qe_ver := 0 |}).
+  pose (a := {| s_q := qa; s_time := 11; s_num := 3; s_cref := 4; s_pver := 0 |}).
+  pose (b := {| s_q := qb; s_time := 11; s_num := 2; s_cref := 3; s_pver := 0 |}).
+  assert (Hs : exists x y, store (run cfg1 (init 10) reorder_events) = [x; y; b; a]).
+  { eexists. eexists. vm_compute. reflexivity. }
+  assert (Ha : accepted (run cfg1 (init 10) reorder_events)
+               = [{| qe_req := ex_create; qe_ver := 0 |}; {| qe_req := ex_update; qe_ver := 0 |}] ++ qa :: [] ++ qb :: []).
+  { vm_compute. reflexivity. }
+  destruct Hs as (x & y & Hs).
+  exists cfg1, 10, reorder_events, a, b. cbv zeta. rewrite Hs.
+  split; [right; right; right; left; reflexivity|].
+  split; [right; right; left; reflexivity|].
+  split; [reflexivity|].
+  split; [|reflexivity].
+  eexists. eexists. eexists. exact Ha.
+Qed.
+
+(* ---------------------------------------------------------------------------------------------- *)
+(* 8. (c) end to end: resolution = the reference machine on the stored operations                 *)
+(* ---------------------------------------------------------------------------------------------- *)
+
+(* the only assumption on the requests: a non-create request reveals a non-empty commitment (the
+   parser refuses an empty reveal value, C10) *)
+Definition req_ok (r : request) : Prop := rq_ty r <> Create -> reveal_c (rq_op r) <> 0.
+
+Lemma accepted_req_ok cfg t0 es :
+  (forall r, In r (submitted es) -> req_ok r) ->
+  forall q, In q (accepted (run cfg (init t0) es)) -> req_ok (qe_req q).
+Proof.
+  intros H q Hq. apply H. pose proof (accepted_are_submitted cfg es (init t0)) as Hs. cbn [init accepted map app] in Hs.
+  eapply sub_in; [exact Hs | apply in_map; exact Hq].
+Qed.
+
+Lemma nzr_pub cfg t0 es s :
+  (forall r, In r (submitted es) -> req_ok r) -> no_zero_reveal (pub_of cfg (run cfg (init t0) es) s).
+Proof.
+  intros H. unfold no_zero_reveal. rewrite Forall_forall. intros o Ho. unfold pub_of in Ho. apply in_map_iff in Ho.
+  destruct Ho as (e & <- & He). apply filter_In in He. destruct He as [He _].
+  destruct (stored_were_accepted cfg t0 es) as [Hst _]. cbn zeta in Hst.
+  exact (accepted_req_ok cfg t0 es H (s_q e) (Hst _ (in_map s_q _ _ He))).
+Qed.
+
+Lemma nzr_unpub cfg t0 es s :
+  (forall r, In r (submitted es) -> req_ok r) -> no_zero_reveal (unpub_of cfg (run cfg (init t0) es) s).
+Proof.
+  intros H. unfold no_zero_reveal. rewrite Forall_forall. intros o Ho. unfold unpub_of in Ho. apply in_map_iff in Ho.
+  destruct Ho as (u & <- & Hu). apply filter_In in Hu. destruct Hu as [Hu _].
+  destruct (stored_were_accepted cfg t0 es) as [_ Hun]. cbn zeta in Hun.
+  exact (accepted_req_ok cfg t0 es H (u_q u) (Hun _ (in_map u_q _ _ Hu))).
+Qed.
+
+(* END TO END.  Whatever was submitted, flushed, anchored and observed, in whatever order: if the DID
+   [s] resolves (state [stt]), then [stt] is the state the reference machine (Spec/Refine: earliest
+   valid create, recovery lineage, update lineage after the last recovery) reaches on the stored
+   operations of [s] IN ANCHORING ORDER (= store order, no sorting needed), followed by the
+   unpublished ones. *)
+Theorem pipeline_resolves_to_spec cfg t0 es s c0 stt ap :
+  (forall r, In r (submitted es) -> req_ok r) ->
+  let st := run cfg (init t0) es in
+  resolve_full (pub_of cfg st s) (unpub_of cfg st s) no_opts = inr (Some (c0, stt, ap)) ->
+  Reach (pub_of cfg st s ++ sort_ops (unpub_of cfg st s)) stt.
+Proof.
+  intros Hok st Hr. rewrite resolve_full_no_opts in Hr.
+  destruct (stored_in_anchoring_order cfg t0 es s) as [Hsort _]. cbn zeta in Hsort. fold st in Hsort. rewrite Hsort in Hr.
+  eapply resolve_refines_spec; [|exact Hr].
+  unfold no_zero_reveal. apply Forall_app. split; [apply nzr_pub; exact Hok|].
+  pose proof (nzr_unpub cfg t0 es s Hok) as Hu. fold st in Hu. unfold no_zero_reveal in Hu. rewrite Forall_forall in *.
+  intros o Ho. apply Hu. apply in_sort_ops. exact Ho.
+Qed.
+
+(* and conversely the reference machine's state is what resolution returns (completeness) *)
+Theorem spec_is_what_resolves cfg t0 es s stt :
+  (forall r, In r (submitted es) -> req_ok r) ->
+  let st := run cfg (init t0) es in
+  Reach (pub_of cfg st s ++ sort_ops (unpub_of cfg st s)) stt ->
+  exists c0 ap, resolve_full (pub_of cfg st s) (unpub_of cfg st s) no_opts = inr (Some (c0, stt, ap)).
+Proof.
+  intros Hok st HR. rewrite resolve_full_no_opts.
+  destruct (stored_in_anchoring_order cfg t0 es s) as [Hsort _]. cbn zeta in Hsort. fold st in Hsort. rewrite Hsort.
+  apply spec_refines_resolve; [|exact HR].
+  unfold no_zero_reveal. apply Forall_app. split; [apply nzr_pub; exact Hok|].
+  pose proof (nzr_unpub cfg t0 es s Hok) as Hu. fold st in Hu. unfold no_zero_reveal in Hu. rewrite Forall_forall in *.
+  intros o Ho. apply Hu. apply in_sort_ops. exact Ho.
+Qed.
+
+Lemma resolve_ok_full pub unpub res :
+  resolve pub unpub no_opts = OOk res ->
+  exists c0 ap, resolve_full pub unpub no_opts = inr (Some (c0, r_state res, ap)) /\ r_pub res = map oid (sort_ops pub).
+Proof.
+  unfold resolve, resolve_full. rewrite prepare_no_opts.
+  destruct (resolve_core _) as [e|[[[c0 s] ap]|]]; try discriminate.
+  intros H. inversion H; subst. exists c0, ap. split; reflexivity.
+Qed.
+
+(* the same for what ResolveDocument shows *)
+Corollary short_view_is_reference cfg t0 es s d u r de p :
+  (forall r, In r (submitted es) -> req_ok r) ->
+  let st := run cfg (init t0) es in
+  short_view cfg st s = RView d u r de p ->
+  exists stt, Reach (pub_of cfg st s ++ sort_ops (unpub_of cfg st s)) stt /\ state_view stt p = RView d u r de p /\
+              (p = true <-> pub_of cfg st s <> []).
+Proof.
+  intros Hok st Hv. unfold short_view, resolve_sfx in Hv.
+  destruct (resolve (pub_of cfg st s) (unpub_of cfg st s) no_opts) as [e|res|] eqn:Er; try discriminate.
+  destruct (resolve_ok_full _ _ _ Er) as (c0 & ap & Hf & Hp).
+  exists (r_state res). split; [eapply pipeline_resolves_to_spec; eassumption|].
+  destruct (stored_in_anchoring_order cfg t0 es s) as [Hsort _]. cbn zeta in Hsort. fold st in Hsort. rewrite Hsort in Hp.
+  rewrite Hp in Hv. destruct (pub_of cfg st s) as [|x l]; cbn [map] in Hv; inversion Hv; subst.
+  - split; [reflexivity|]. split; [discriminate | congruence].
+  - split; [reflexivity|]. split; [discriminate | reflexivity].
+Qed.
+
+(* -- correct chains: resolution is the left fold of apply -- *)
+
+Lemma resolve_single_create c s :
+  ty c = Create -> apply c init_state = Some s -> resolve_core [c] = inr (Some (c, s, [])).
+Proof.
+  intros Hty Ha. pose proof (create_not_deact _ _ Ha) as Hd.
+  unfold resolve_core, is_full, is_ty. cbn [filter]. rewrite Hty. cbn [optype_eqb orb filter].
+  unfold creates_published_first. cbn [filter].
+  destruct (published c); cbn [negb app first_valid_create]; rewrite Ha;
+    unfold run_chain; cbn [length chain candidates filter]; rewrite Hd; reflexivity.
+Qed.
+
+(* [good_chain l s]: l = a create followed by operations each of which is well formed (built by a
+   correct client: C11), reveals the commitment in force in the state reached so far, commits to a
+   fresh key, and is anchored after everything before it.  [s] is the left fold of apply. *)
+Inductive good_chain : list aop -> state -> Prop :=
+| gc_create c s : ty c = Create -> apply c init_state = Some s -> good_chain [c] s
+| gc_update l s o :
+    good_chain l s -> good_update o -> reveal_c o = upd s -> upd s <> 0 -> upd_c o <> upd s ->
+    fresh_commitment (upd_c o) (is_ty Update) l -> (forall q, In q l -> op_lt q o = true) ->
+    good_chain (l ++ [o]) (update_result o s)
+| gc_recover l s o :
+    good_chain l s -> good_recover o -> reveal_c o = rec s -> rec s <> 0 -> rec_c o <> rec s ->
+    fresh_commitment (rec_c o) is_full l -> (forall q, In q l -> op_lt q o = true) ->
+    good_chain (l ++ [o]) (recover_result o s)
+| gc_deactivate l s o :
+    good_chain l s -> good_deactivate o -> reveal_c o = rec s -> rec s <> 0 ->
+    good_chain (l ++ [o]) (deactivate_result o s)
+| gc_after_deactivate l s o :          (* anything anchored after a deactivation is inert *)
+    good_chain l s -> deact s = true -> good_chain (l ++ [o]) s.
+
+Lemma good_chain_fold l s : good_chain l s ->
+  exists c rest, l = c :: rest /\ ty c = Create.
+Proof.
+  induction 1 as [c s Hty _| l s o _ (c & r & -> & Hc) | l s o _ (c & r & -> & Hc) | l s o _ (c & r & -> & Hc) | l s o _ (c & r & -> & Hc)];
+    try (exists c, (r ++ [o]); split; [reflexivity | exact Hc]). exists c, []. split; [reflexivity | exact Hty].
+Qed.
+
+Theorem good_chain_resolves l s :
+  good_chain l s -> Forall (fun o => published o = true) l -> no_zero_reveal l ->
+  exists c0 ap, resolve_core l = inr (Some (c0, s, ap)).
+Proof.
+  induction 1 as [c s Hty Ha | l s o Hg IH Hgood Hrev Hnz Hreuse Hfresh Hlt | l s o Hg IH Hgood Hrev Hnz Hreuse Hfresh Hlt
+                  | l s o Hg IH Hgood Hrev Hnz | l s o Hg IH Hd]; intros Hpub Hnzr.
+  - exists c, []. apply resolve_single_create; assumption.
+  - apply Forall_app in Hpub. destruct Hpub as [Hpub _]. apply Forall_app in Hnzr. destruct Hnzr as [Hnzr _].
+    destruct (IH Hpub Hnzr) as (c0 & ap & Hr). exists c0, (ap ++ [o]).
+    apply update_takes_effect_later; assumption.
+  - apply Forall_app in Hpub. destruct Hpub as [Hpub _]. apply Forall_app in Hnzr. destruct Hnzr as [Hnzr _].
+    destruct (IH Hpub Hnzr) as (c0 & ap & Hr). exists c0, (filter is_full ap ++ [o]).
+    apply recover_takes_effect_last; try assumption.
+    intros q Hq Hqu. destruct (op_after (time o) (num o) q) eqn:E; [|reflexivity]. exfalso.
+    apply op_after_spec in E. pose proof (Hlt q Hq) as Hl. apply op_lt_spec in Hl.
+    rewrite Forall_forall in Hpub. pose proof (Hpub q Hq) as Hp. destruct E as [E|E]; [congruence | lia].
+  - apply Forall_app in Hpub. destruct Hpub as [Hpub _]. apply Forall_app in Hnzr. destruct Hnzr as [Hnzr _].
+    destruct (IH Hpub Hnzr) as (c0 & ap & Hr). exists c0, (filter is_full ap ++ [o]).
+    apply (deactivate_takes_effect l c0 s ap o); assumption.
+  - pose proof Hpub as Hpub'. apply Forall_app in Hpub'. destruct Hpub' as [Hpub' _].
+    pose proof Hnzr as Hnzr'. apply Forall_app in Hnzr'. destruct Hnzr' as [Hnzr' _].
+    destruct (IH Hpub' Hnzr') as (c0 & ap & Hr). exists c0, ap.
+    apply deactivate_terminal_core; assumption.
+Qed.
+
+(* END TO END, correct clients.  If the stored operations of a DID, in anchoring order, form a good
+   chain and nothing of that DID is pending in the unpublished store, ResolveDocument shows exactly the
+   fold of apply, published.  The hypothesis is about the ANCHORING order: the writer may have
+   reordered what the client submitted (fifo_refuted), in which case it can fail although the client
+   was correct (Model.reorder_loses_update). *)
+Theorem pipeline_fold cfg t0 es s stt :
+  (forall r, In r (submitted es) -> req_ok r) ->
+  let st := run cfg (init t0) es in
+  unpub_of cfg st s = [] ->
+  good_chain (pub_of cfg st s) stt ->
+  short_view cfg st s = state_view stt true.
+Proof.
+  intros Hok st Hun Hg.
+  destruct (good_chain_resolves _ _ Hg (stored_published cfg t0 es s) (nzr_pub cfg t0 es s Hok)) as (c0 & ap & Hr).
+  destruct (stored_in_anchoring_order cfg t0 es s) as [Hsort _]. cbn zeta in Hsort. fold st in Hsort.
+  assert (Hf : resolve_full (pub_of cfg st s) [] no_opts = inr (Some (c0, stt, ap))).
+  { rewrite resolve_full_no_opts, Hsort. cbn [sort_ops isort]. rewrite app_nil_r. exact Hr. }
+  unfold short_view, resolve_sfx. rewrite Hun, (resolve_of_full _ _ _ _ _ Hf). cbn [r_state r_pub]. rewrite Hsort.
+  destruct (good_chain_fold _ _ Hg) as (c & rest & -> & _). reflexivity.
+Qed.
+
+(* ---------------------------------------------------------------------------------------------- *)
+(* 9. (d) the three views of a create                                                             *)
+(* ---------------------------------------------------------------------------------------------- *)
+
+(* what a create determines: everything except coordinates, canonical reference, times *)
+Definition core (s : state) := (doc s, upd s, rec s, deact s, aorigin s).
+
+Lemma view_content_core s s' p p' : core s = core s' -> view_content (state_view s p) = view_content (state_view s' p').
+Proof. unfold core, state_view, view_content. intros H. inversion H. reflexivity. Qed.
+
+(* Apply of a create on the empty model does not depend on where / whether it is anchored *)
+Lemma apply_create_core o t n c md t' n' c' md' :
+  ty o = Create ->
+  option_map core (apply (stamp o t n c (Some md)) init_state) = option_map core (apply (stamp o t' n' c' (Some md')) init_state).
+Proof.
+  intros Hty. unfold apply, stamp. cbn [mdelta ty]. rewrite Hty. unfold apply_create.
+  cbn [doc init_state parse_ok dhash_ok dvalid patch_ok rec_c upd_c delta origin time num cref].
+  destruct (parse_ok o); cbn [negb]; [|reflexivity].
+  destruct (dhash_ok o); cbn [negb]; [|reflexivity].
+  destruct (dvalid o); cbn [negb]; [|reflexivity].
+  destruct (patch_ok o); reflexivity.
+Qed.
+
+Lemma create_result_apply v r w s :
+  create_result v r w = Some s -> apply (stamp (rq_op r) w 0 0 (Some (pv_mdelta v))) init_state = Some s.
+Proof.
+  unfold create_result. destruct (apply _ init_state) as [s'|]; [|discriminate].
+  destruct (doc s') as [[|x d]|]; try discriminate. intros H; inversion H; reflexivity.
+Qed.
+
+(* (1) = (2): the immediate response and a long-form resolution while nothing of the DID is in the
+   stores (both are GetCreateResult on an unanchored copy; accepting version / current version and the
+   wall-clock stamps do not matter) *)
+Theorem create_response_indep v v' r w w' : rq_ty r = Create -> create_response v r w = create_response v' r w'.
+Proof.
+  intros Hty. unfold create_response, create_result.
+  pose proof (apply_create_core (rq_op r) w 0 0 (pv_mdelta v) w' 0 0 (pv_mdelta v') Hty) as H.
+  destruct (apply (stamp (rq_op r) w 0 0 (Some (pv_mdelta v))) init_state) as [s|],
+           (apply (stamp (rq_op r) w' 0 0 (Some (pv_mdelta v'))) init_state) as [s'|]; cbn [option_map] in H; try discriminate; [|reflexivity].
+  unfold core in H. inversion H as [[Hd Hu Hr Hde Ho]]. rewrite Hd.
+  destruct (doc s') as [[|x d]|] eqn:Ed'; try reflexivity.
+  unfold state_view. rewrite Hd, Ed', Hu, Hr, Hde. reflexivity.
+Qed.
+
+Theorem long_form_before_anchoring cfg st r w cur :
+  pub_of cfg st (rq_sfx r) = [] -> unpub_of cfg st (rq_sfx r) = [] ->
+  version_at (c_versions cfg) (now st) = Some cur -> rq_intake_ok r = true ->
+  long_view cfg st r w = create_response cur r w.
+Proof.
+  intros Hp Hu Hv Hi. unfold long_view, resolve_sfx. rewrite Hp, Hu, Hv, Hi. reflexivity.
+Qed.
+
+Lemma resolve_one_create c s :
+  ty c = Create -> apply c init_state = Some s ->
+  resolve [c] [] no_opts = OOk {| r_state := s; r_pub := [oid c]; r_unpub := []; r_applied := [] |} /\
+  resolve [] [c] no_opts = OOk {| r_state := s; r_pub := []; r_unpub := [oid c]; r_applied := [] |}.
+Proof.
+  intros Hty Ha. pose proof (resolve_single_create c s Hty Ha) as Hr. split.
+  - assert (Hf : resolve_full [c] [] no_opts = inr (Some (c, s, []))) by (rewrite resolve_full_no_opts; exact Hr).
+    rewrite (resolve_of_full _ _ _ _ _ Hf). reflexivity.
+  - assert (Hf : resolve_full [] [c] no_opts = inr (Some (c, s, []))) by (rewrite resolve_full_no_opts; exact Hr).
+    rewrite (resolve_of_full _ _ _ _ _ Hf). reflexivity.
+Qed.
+
+(* (3): the create is anchored, observed, and the only operation of its DID *)
+Theorem create_views_agree cfg t0 es r w v e :
+  let st := run cfg (init t0) es in
+  rq_ty r = Create ->
+  create_response v r w <> RNotFound ->                                   (* the create was answered *)
+  filter (fun x => s_sfx x =? rq_sfx r) (store st) = [e] -> qe_req (s_q e) = r ->
+  unpub_of cfg st (rq_sfx r) = [] ->
+  exists d u rc,
+    create_response v r w = RView d u rc false false /\                    (* immediate response *)
+    (forall v' w', create_response v' r w' = RView d u rc false false) /\  (* long form before anchoring *)
+    short_view cfg st (rq_sfx r) = RView d u rc false true /\             (* short form after anchoring *)
+    long_view cfg st r w = RView d u rc false true.                        (* long form after anchoring *)
+Proof.
+  intros st Hty Hresp Hst He Hun.
+  unfold create_response in Hresp. destruct (create_result v r w) as [s|] eqn:Ecr; [|congruence].
+  pose proof (create_result_apply _ _ _ _ Ecr) as Ha.
+  (* the stored copy *)
+  destruct (reachable_inv cfg t0 es) as [_ _ _ _ _ _ _ _ _ Ipv].
+  assert (Hin : In e (store st)).
+  { assert (H : In e (filter (fun x => s_sfx x =? rq_sfx r) (store st))) by (rewrite Hst; left; reflexivity).
+    apply filter_In in H. exact (proj1 H). }
+  rewrite Forall_forall in Ipv. assert (Hpv : version_at (c_versions cfg) (s_pver e) <> None) by (apply Ipv, in_or_app; left; exact Hin).
+  destruct (version_at (c_versions cfg) (s_pver e)) as [ve|] eqn:Eve; [|congruence].
+  assert (Hpub : pub_of cfg st (rq_sfx r) = [stamp (rq_op r) (s_time e) (s_num e) (s_cref e) (Some (pv_mdelta ve))]).
+  { unfold pub_of. rewrite Hst. cbn [map]. unfold sop_aop, mdelta_at. rewrite He, Eve. reflexivity. }
+  pose proof (apply_create_core (rq_op r) w 0 0 (pv_mdelta v) (s_time e) (s_num e) (s_cref e) (pv_mdelta ve) Hty) as Hc.
+  rewrite Ha in Hc. cbn [option_map] in Hc.
+  destruct (apply (stamp (rq_op r) (s_time e) (s_num e) (s_cref e) (Some (pv_mdelta ve))) init_state) as [s'|] eqn:Ea'; [|discriminate].
+  cbn [option_map] in Hc. inversion Hc as [[Hd Hu Hr Hde Ho]].
+  pose proof (create_not_deact _ _ Ha) as Hdeact.
+  assert (Hty' : ty (stamp (rq_op r) (s_time e) (s_num e) (s_cref e) (Some (pv_mdelta ve))) = Create) by exact Hty.
+  destruct (resolve_one_create _ _ Hty' Ea') as [Hres _].
+  exists (match doc s with Some d => d | None => [] end), (upd s), (rec s).
+  assert (Hshort : short_view cfg st (rq_sfx r) = RView (match doc s with Some d => d | None => [] end) (upd s) (rec s) false true).
+  { unfold short_view, resolve_sfx. rewrite Hpub, Hun, Hres. cbn [r_state r_pub]. unfold state_view.
+    rewrite <- Hd, <- Hu, <- Hr, <- Hde, Hdeact. reflexivity. }
+  split; [unfold create_response; rewrite Ecr; unfold state_view; rewrite Hdeact; reflexivity|].
+  split.
+  { intros v' w'. rewrite (create_response_indep v' v r w' w Hty). unfold create_response. rewrite Ecr.
+    unfold state_view. rewrite Hdeact. reflexivity. }
+  split; [exact Hshort|].
+  unfold long_view. unfold short_view in Hshort. destruct (resolve_sfx cfg st (rq_sfx r)) as [x|res|]; try discriminate. exact Hshort.
+Qed.
+
+(* ---------------------------------------------------------------------------------------------- *)
+(* 10. (e) protocol versions                                                                      *)
+(* ---------------------------------------------------------------------------------------------- *)
+
+(* VALIDATED under the version in force (ledger clock) at submission: accepted_effect.
+   BATCHED with operations accepted under the same version only, but the SIZE limit is the one of the
+   version in force when the batch is cut: *)
+Theorem batch_shape cfg ex f st st' :
+  cut cfg ex f st = Some st' ->
+  exists cur t, version_at (c_versions cfg) (now st) = Some cur /\ ledger st' = ledger st ++ [t] /\
+    (exists ver, Forall (fun q => qe_ver q = ver) (t_ops t) /\ t_pver t = if c_by_time cfg then now st else ver) /\
+    (length (t_ops t) <= pv_max cur)%nat /\ NoDup (map qe_sfx (t_ops t)) /\
+    t_time t = now st /\ t_num t = next_num st /\
+    (f = false -> (pv_max cur <= length (queue st))%nat).
+Proof.
+  intros Hc. destruct (cut_spec _ _ _ _ _ Hc) as (cur & batch & rest & ver & Hcur & Hne & Hq & Hver & Hlen & Hf & Hvv & ->).
+  eexists cur, _. split; [exact Hcur|]. split; [reflexivity|]. cbn [t_ops t_pver t_time t_num].
+  pose proof (split_sub_in (fun i => memZ i ex) [] batch) as Hsub.
+  split; [exists ver; split; [eapply Forall_sub; eassumption | reflexivity]|].
+  split.
+  { assert (Hl : forall A (a b : list A), sub a b -> (length a <= length b)%nat).
+    { intros A a b Hs. induction Hs; cbn [length]; lia. }
+    specialize (Hl _ _ _ Hsub). lia. }
+  split; [apply split_in_sfx|]. repeat split. exact Hf.
+Qed.
+
+(* STAMPED AND APPLIED: every stored operation was accepted under a version of the table; it carries
+   the protocol version the ledger put on its transaction (policy), and resolution applies it under
+   the parameters of THAT version. *)
+Theorem stored_version cfg t0 es e :
+  In e (store (run cfg (init t0) es)) ->
+  accepted_under cfg (s_q e) /\
+  s_pver e = (if c_by_time cfg then s_time e else qe_ver (s_q e)) /\
+  exists v, version_at (c_versions cfg) (s_pver e) = Some v /\ mdelta (sop_aop cfg e) = Some (pv_mdelta v).
+Proof.
+  intros He. destruct (reachable_inv cfg t0 es) as [Ic _ _ _ _ Iq _ _ Ist Ipv].
+  assert (Hin : In e (anch (run cfg (init t0) es))) by (apply in_or_app; left; exact He).
+  rewrite Forall_forall in *. split.
+  - apply Iq. eapply Permutation_in; [apply Permutation_sym; exact Ic|]. unfold places.
+    apply in_or_app. right. apply in_or_app. right. apply in_or_app. left. apply in_map. exact He.
+  - split; [exact (Ist e Hin)|]. specialize (Ipv e Hin).
+    destruct (version_at (c_versions cfg) (s_pver e)) as [v|] eqn:Ev; [|congruence].
+    exists v. split; [reflexivity|]. unfold sop_aop, stamp, mdelta_at. cbn [mdelta]. rewrite Ev. reflexivity.
+Qed.
+
+(* ledger policy "the version handed to WriteAnchor": applied under the very version that validated it *)
+Corollary applied_under_accepting_version cfg t0 es e :
+  c_by_time cfg = false -> In e (store (run cfg (init t0) es)) ->
+  exists v, version_at (c_versions cfg) (qe_ver (s_q e)) = Some v /\ pv_genesis v = qe_ver (s_q e) /\
+            mdelta (sop_aop cfg e) = Some (pv_mdelta v).
+Proof.
+  intros Hp He. destruct (stored_version cfg t0 es e He) as ((v & Hv & Hg) & Hs & (v' & Hv' & Hm)).
+  rewrite Hp in Hs. rewrite Hs, Hv in Hv'. inversion Hv'; subst. exists v'. auto.
+Qed.
+
+(* ledger policy "transaction time": applied under the version in force when it was ANCHORED, which
+   need not be the one that validated it *)
+Example applied_under_anchoring_version :
+  let cfg := {| c_versions := [v1; v2]; c_unpub := []; c_by_time := true |} in
+  let st := run cfg (init 10) [ESubmit ex_create 5000; ETime 150; EFlush true []; EObserve] in
+  map (fun e => (qe_ver (s_q e), s_pver e, mdelta (sop_aop cfg e))) (store st) = [(0, 150, Some 600)].
+Proof. vm_compute. reflexivity. Qed.
+
+(* ---------------------------------------------------------------------------------------------- *)
+(* 11. the hypotheses are satisfiable                                                             *)
+(* ---------------------------------------------------------------------------------------------- *)
+
+Definition life : list event :=
+  [ESubmit ex_create 5000; EFlush true []; EObserve; ETime 11; ESubmit ex_update 5001; EFlush true []; EObserve;
+   ETime 12; ESubmit ex_recover 5002; EFlush true []; EObserve; ETime 13; ESubmit ex_update2 5003; EFlush true []; EObserve].
+
+Example life_reqs_ok : forall r, In r (submitted life) -> req_ok r.
+Proof. intros r Hr. cbn in Hr. unfold req_ok. intuition (subst; cbn in *; congruence). Qed.
+
+Definition life_pub : list aop := pub_of cfg1 (run cfg1 (init 10) life) 7.
+
+Example life_good_chain :
+  exists c u r u2 s0, life_pub = [c; u; r; u2] /\ apply c init_state = Some s0 /\
+    good_chain life_pub (update_result u2 (recover_result r (update_result u s0))).
+Proof.
+  assert (H : exists c u r u2, life_pub = [c; u; r; u2]) by (do 4 eexists; vm_compute; reflexivity).
+  destruct H as (c & u & r & u2 & H). exists c, u, r, u2.
+  assert (Hl : life_pub = [c; u; r; u2]) by exact H.
+  vm_compute in H. inversion H; subst c u r u2. clear H.
+  eexists. split; [exact Hl|]. split; [vm_compute; reflexivity|]. rewrite Hl.
+  change [?c; ?u; ?r; ?u2] with ((([c] ++ [u]) ++ [r]) ++ [u2]).
+  apply gc_update.
+  - apply gc_recover.
+    + apply gc_update.
+      * apply gc_create; vm_compute; reflexivity.
+      * unfold good_update. vm_compute. repeat split.
+      * reflexivity.
+      * vm_compute. discriminate.
+      * vm_compute. discriminate.
+      * intros _ q [<-|[]] _. vm_compute. discriminate.
+      * intros q [<-|[]]. vm_compute. reflexivity.
+    + unfold good_recover. vm_compute. repeat split.
+    + reflexivity.
+    + vm_compute. discriminate.
+    + vm_compute. discriminate.
+    + intros _ q [<-|[<-|[]]] Hf; vm_compute in Hf; try discriminate.
+    + intros q [<-|[<-|[]]]; vm_compute; reflexivity.
+  - unfold good_update. vm_compute. repeat split.
+  - reflexivity.
+  - vm_compute. discriminate.
+  - vm_compute. discriminate.
+  - intros _ q [<-|[<-|[<-|[]]]] Hf; vm_compute in Hf; try discriminate; vm_compute; discriminate.
+  - intros q [<-|[<-|[<-|[]]]]; vm_compute; reflexivity.
+Qed.
+
+(* pipeline_fold on this run: the DID shows the recover's and the last update's content *)
+Example life_view : short_view cfg1 (run cfg1 (init 10) life) 7 = RView [103; 104] 23 31 false true.
+Proof. vm_compute. reflexivity. Qed.
+
+(* create_views_agree on a run *)
+Example create_views_nonvacuous :
+  let st := run cfg1 (init 10) [ESubmit ex_create 5000; EFlush true []; EObserve] in
+  create_response v1 ex_create 5000 <> RNotFound /\
+  (exists e, filter (fun x => s_sfx x =? 7) (store st) = [e] /\ qe_req (s_q e) = ex_create) /\
+  unpub_of cfg1 st 7 = [].
+Proof.
+  cbn zeta. split; [vm_compute; discriminate|]. split; [|vm_compute; reflexivity].
+  eexists. split; vm_compute; reflexivity.
+Qed.
